@@ -504,8 +504,26 @@ func newRegDriver(c *core.Ctx, T *types.Named, ops []regOp) *regDriver {
 	return d
 }
 
-func c04(c *core.Ctx, r *core.Report) {
+// alphabetRules: who may un-publish or publish behind the create protocol's back: nobody in scope calls the registry's
+// RemoveSingleton / AddSingleton through the interface (the explored alphabet does not contain them; an eviction after
+// publication would make the next lookup create a second instance).
+func alphabetRules(c *core.Ctx, r *core.Report, rule string) {
 	ro := c.Roles()
+	rm := c.CallSites(func(com *ssa.CallCommon) bool { return core.IsInvoke(com, ro.SCRRemove) })
+	if len(rm) > 0 {
+		r.Undecided(rule, "alphabet:RemoveSingleton", c.Pos(rm[0].Pos()), "RemoveSingleton now has an in-scope caller: the explored alphabet no longer covers what the factory can issue (a published singleton can be evicted and created again)")
+	} else {
+		r.Hold(rule, "alphabet:RemoveSingleton", "", "no in-scope caller of SingletonComponentRegistry.RemoveSingleton")
+	}
+	pub := c.CallSites(func(com *ssa.CallCommon) bool { return core.IsInvoke(com, ro.SCRAddSingleton) })
+	if len(pub) > 0 {
+		r.Undecided(rule, "alphabet:AddSingleton", c.Pos(pub[0].Pos()), "AddSingleton now has an in-scope caller outside the registry: the explored alphabet no longer covers what the factory can issue")
+	} else {
+		r.Hold(rule, "alphabet:AddSingleton", "", "no in-scope caller of SingletonComponentRegistry.AddSingleton outside the registry")
+	}
+}
+
+func c04(c *core.Ctx, r *core.Report) {
 	r.Explanation = "C04 singleton cache protocol as typestate: every receiver field used as a map/set cell becomes an abstract cell for one tracked name; the bodies of AddSingletonFactory, AddSingleton, GetSingleton, GetSingletonOrCreateByFactory and IsSingletonCurrentlyInCreation are interpreted (SSA, symbolic tokens, cell primitives answered by the model, same-receiver helpers inlined, logging effect-free); every history a factory can issue for one name - lookups with/without early references, in-creation queries, create begin, add factory (<=1 per creation), create end ok/fail, early factory ok/fail - is explored to a fixpoint over (cell contents, monitor) with bounded tokens (2 creations, 3 early runs) and checked against observational assertions A1 one early reference / A2 in-creation mark / A3 published is final / A4 clean failure (including: the clean-up of a failed attempt never deletes from a cell that receives published instances) / A5 early-factory error. R1: every cell operation is keyed by the method's name parameter (makes the per-name projection sound). R3: the factory side of the protocol that the alphabet relies on - the accessor consults the cache (early references allowed) before creating, the early factory is registered exactly under the un-narrowed exposure condition and before any dependency is resolved, the creator's own lookup does not allow creating an early reference. Decides every single-name history; does not decide custom registries or the atomicity of sync.Map (C20)."
 	r.Assumptions = []string{"sync2.Map / list.Set primitives behave as a map / set per key (delegation checked in C20.R4)", "operations on other names do not touch this name's cells (C04.R1)", "the factory issues at most one AddSingletonFactory per creation and does not re-enter creation of the same name while it is in creation (C02.R1/R3)"}
 	impls := c.Implementors(c.Iface("container", "SingletonComponentRegistry"))
@@ -513,15 +531,7 @@ func c04(c *core.Ctx, r *core.Report) {
 	if !r.Exactly("C04.R0", "SingletonComponentRegistry implementations", len(impls), 1) {
 		return
 	}
-	// who may call RemoveSingleton: nobody (the alphabet below does not contain it)
-	rm := c.CallSites(func(com *ssa.CallCommon) bool { return core.IsInvoke(com, ro.SCRRemove) })
-	if len(rm) > 0 {
-		r.Undecided("C04.R0", "alphabet:RemoveSingleton", c.Pos(rm[0].Pos()), "RemoveSingleton now has an in-scope caller: the explored alphabet no longer covers what the factory can issue")
-	}
-	pub := c.CallSites(func(com *ssa.CallCommon) bool { return core.IsInvoke(com, ro.SCRAddSingleton) })
-	if len(pub) > 0 {
-		r.Undecided("C04.R0", "alphabet:AddSingleton", c.Pos(pub[0].Pos()), "AddSingleton now has an in-scope caller outside the registry: the explored alphabet no longer covers what the factory can issue")
-	}
+	alphabetRules(c, r, "C04.R0")
 	// the factory's side of the protocol: the machine above assumes that a name in creation is never created again
 	// and that at most one early factory is registered per creation, before anything can look the name up
 	if l := findLifecycle(c, r, "C04.R3"); l != nil {
